@@ -6,7 +6,7 @@
 From Coq Require Import ZArith List Bool.
 Import ListNotations.
 Require Import PV.Lib.Bytes PV.Model.Wire PV.Model.Message PV.Spec.Rfc4880_msg PV.Model.Message_abs.
-Require Import PV.Proofs.Message_lemmas PV.Proofs.Message_lemmas2.
+Require Import PV.Proofs.Message_lemmas PV.Proofs.Message_lemmas2 PV.Proofs.Wire_lemmas4.
 Open Scope Z_scope.
 
 (* ---------------------------------------------------------------- the run-time grammar check decides the RFC grammar *)
@@ -239,3 +239,23 @@ Proof. exact old_framing_same_packet. Qed.
 Print Assumptions C20_old_framing_same_packet.
 Example C20_framing_premises : wf_pkt id_compress (PLit lit_example) /\ tag_body id_compress (PLit lit_example) = Some (11, [98; 0; 0; 0; 0; 0; 104; 105]).
 Proof. exact example_framing_premises. Qed.
+
+(* ---------- a packet read without a length field (Proofs/Wire_lemmas4.v; repair b07b4af) ---------- *)
+(* a message of another producer may end in a packet with an old-format header WITHOUT length field (it extends to the end of the
+   input).  Once PGPy adds a signature, packets follow it: it is kept, and written, with a length field that fits its length, and
+   whatever follows (any r) is left for the next packet.  131 + 4 t is the tag octet 1 0 t t t t 1 1. *)
+Theorem C20_indeterminate_length_reframed : forall t body, 0 <= t < 16 -> Z.of_nat (length body) < 4294967296 ->
+  exists h bs,
+    header_parse (indet_octet t :: body) = Some (h, body) /\ h_tag h = t /\ h_len h = Z.of_nat (length body) /\
+    header_emit h = Some bs /\
+    forall r, exists h', header_parse (bs ++ body ++ r) = Some (h', body ++ r) /\ h_tag h' = t /\ h_len h' = Z.of_nat (length body) /\
+                         Z.of_nat (length bs) = 1 + h_llen h' /\ Z.of_nat (length body) < 256 ^ h_llen h'.
+Proof. exact indeterminate_reframed. Qed.
+Print Assumptions C20_indeterminate_length_reframed.
+(* the rule before the repair (stored width 0) wrote the header back without length field: the next packet was swallowed *)
+Theorem C20_indeterminate_length_old_refuted :
+  exists t body r bs h' rest,
+    header_emit (indet_header_old t (Z.of_nat (length body))) = Some bs /\ length bs = 1%nat /\
+    header_parse (bs ++ body ++ r) = Some (h', rest) /\ r <> [] /\ rest = body ++ r /\ h_len h' <> Z.of_nat (length body).
+Proof. exact indeterminate_old_swallows. Qed.
+Print Assumptions C20_indeterminate_length_old_refuted.
